@@ -39,6 +39,8 @@ pub struct Profile {
     pub hazard_pct: usize,
     /// generate edits that add or drop a step's depfile/deps binding
     pub deps_toggle: bool,
+    /// one step includes hundreds of extra headers, so that .n2_db grows past 8 KiB and its records get long
+    pub big_log_pct: usize,
 }
 
 pub const EDIT_NAMES: [&str; 14] = [
@@ -65,6 +67,7 @@ impl Default for Profile {
             symlink_pct: 10,
             hazard_pct: 0,
             deps_toggle: true,
+            big_log_pct: 0,
         }
     }
 }
@@ -974,6 +977,21 @@ pub fn run_history_x(case: &Case, prof: &Profile, dir: &Path, opts: &HistOpts) -
                 }
             }
             world.includes.insert(s.uid, inc);
+        }
+    }
+    if prof.big_log_pct > 0 && mt.chance(prof.big_log_pct) {
+        if let Some(uid) = world.disk.steps.iter().find(|s| s.deps != 0 && !s.regen).map(|s| s.uid) {
+            let n = 150 + mt.below(1300);
+            let pad = mt.below(24);
+            let mut extra = vec![];
+            for i in 0..n {
+                let f = format!("big/h{}{}", i, "x".repeat((pad + i) % 24));
+                world.write_source(&f);
+                extra.push(f);
+            }
+            world.disk.sources.extend(extra.iter().cloned());
+            world.includes.entry(uid).or_default().extend(extra);
+            stats.classes.insert("big-log".into());
         }
     }
     let hazard = prof.hazard_pct > 0 && mt.chance(prof.hazard_pct);
